@@ -221,7 +221,7 @@ def _c07_vm_sample(d, tier, coq, build):
 CONFIG = {
     "properties_file": "Properties/C07.v",
     "proof_files": ["Proofs/GraphMem.v", "Proofs/GraphStore.v", "Proofs/IndexLTS.v", "Proofs/StoreLTS.v", "Proofs/IndexAllLTS.v", "Proofs/Links.v"],
-    "model_files": ["Generated/GC07.v", "Model/GraphMem.v", "Model/GraphStore.v", "Model/IndexLTS.v", "Model/StoreLTS.v", "Model/IndexAllLTS.v", "Model/Links.v"],
+    "model_files": ["Generated/GC07.v", "Model/GraphMem.v", "Model/GraphStore.v", "Model/IndexLTS.v", "Model/StoreLTS.v", "Model/IndexAllLTS.v", "Model/GraphMemSrc.v", "Model/Links.v"],
     "extract": "XC07.v",
     "ml_main": "c07_main.ml",
     "harness": "c07",
